@@ -629,7 +629,7 @@ theorem manGet_map_replace (p : MPath) (v : Bytes) : ∀ (mans : List (MPath × 
   | cons x xs ih =>
     intro h
     by_cases hx : (x.1 == p) = true
-    · simp [manGet, hx]
+    · simp only [manGet, List.map_cons, hx, if_true, List.find?_cons, beq_self_eq_true, Option.map_some]
     · have hx' : (x.1 == p) = false := by simpa using hx
       have hany : xs.any (fun e => e.1 == p) = true := by simpa [hx'] using h
       have := ih hany
